@@ -153,8 +153,16 @@ def record_gm(sp, rs, k):
     alpha = 1.0 / L / float(rs.choice([1.0, 1.0, 2.0]))
     F = lambda v: 0.5 * np.linalg.norm(A @ v - y) ** 2 + gval(gk, lam, v)
     Fs = F(xs)
-    x0 = np.zeros(n, dtype=A.dtype)
-    x = x0.copy()
+    # zero start or warm start (the rate bounds are stated in ||x0 - x*||), and the caller's array contiguous or a strided view
+    x0 = np.zeros(n, dtype=A.dtype) if k % 2 == 0 else (xs + 0.5 * (rs.randn(n) + (1j * rs.randn(n) if cplx else 0))).astype(A.dtype)
+    if gk == "box":
+        x0 = np.clip(np.real(x0), -0.5, 0.8).astype(A.dtype)
+    if k % 4 == 3:
+        xbuf = np.zeros(2 * n, dtype=A.dtype)
+        x = xbuf[1::2]
+        x[:] = x0
+    else:
+        x = x0.copy()
     D2 = np.linalg.norm(x0 - xs) ** 2
     Leff = 1.0 / alpha
     K = int(rs.choice([30, 80, 200])) if forced is None else forced
@@ -179,7 +187,7 @@ def record_gm(sp, rs, k):
     a2.update()
     defect = np.linalg.norm(a2.x - xs) / max(np.linalg.norm(xs), 1.0)
     ev.append({"e": "end", "iter": int(alg.iter), "ratio": 0, "up": 0, "mdist": 0, "prod": 0, "saddle_defect": fx(defect),
-               "final_dist": fx(np.sqrt(max(Fprev - Fs, 0) / F0gap)), "in_place": int(alg.x is x)})
+               "final_dist": fx(np.sqrt(max(Fprev - Fs, 0) / F0gap)), "in_place": int(alg.x is x or np.array_equal(np.asarray(x), np.asarray(alg.x)))})
     return {"id": "gm%d" % k, "accelerate": int(acc), "constant_steps": 1, "max_iter": K, "final_tol": 1000000000, "ev": ev,
             "meta": {"n": n, "g": gk, "complex": cplx, "kind": kind, "accelerate": acc, "alpha_L": round(alpha * L, 2)}}
 
@@ -219,8 +227,13 @@ def record_pdhg(sp, rs, k, force_mode=None):
     K = 3000
     gp = lam if mode.startswith("accel_p") else 0
     gd = 1.0 if mode.startswith("accel_d") else 0
-    x = np.zeros(n, dtype=A.dtype)
-    u = np.zeros(n, dtype=A.dtype)
+    if k % 4 == 2:
+        # the caller's primal / dual arrays are strided views: they must still hold the iterates
+        xbuf, ubuf = np.zeros(2 * n, dtype=A.dtype), np.zeros((n, 2), dtype=A.dtype)
+        x, u = xbuf[::2], ubuf[:, 1]
+    else:
+        x = np.zeros(n, dtype=A.dtype)
+        u = np.zeros(n, dtype=A.dtype)
     tau_a = tau.copy() if isinstance(tau, np.ndarray) else tau
     sig_a = sigma.copy() if isinstance(sigma, np.ndarray) else sigma
     pg = make_prox(sp, gk, lam, n) or sp.prox.NoOp([n])
@@ -257,7 +270,7 @@ def record_pdhg(sp, rs, k, force_mode=None):
     defect = (np.linalg.norm(a2.x - xs) + np.linalg.norm(a2.u - us)) / max(np.linalg.norm(xs) + np.linalg.norm(us), 1.0)
     fd = np.linalg.norm(alg.x - xs) / max(np.linalg.norm(xs), 1e-12)
     ev.append({"e": "end", "iter": int(alg.iter), "ratio": 0, "up": 0, "mdist": 0, "prod": 0, "saddle_defect": fx(defect), "final_dist": fx(fd),
-               "in_place": int(alg.x is x and alg.u is u)})
+               "in_place": int((alg.x is x or np.array_equal(np.asarray(x), np.asarray(alg.x))) and (alg.u is u or np.array_equal(np.asarray(u), np.asarray(alg.u))))})
     # only the first 400 updates are logged: iter of the end event is not checked against the log
     return {"id": "pd%d" % k, "accelerate": int(accel), "constant_steps": int(not accel), "max_iter": K, "final_tol": 100000 if not accel else (ACCEL_FINAL_TOL if mode.startswith("accel_p") else ACCEL_DUAL_FINAL_TOL), "ev": ev, "final_dist_float": float(fd),
             "meta": {"n": n, "g": gk, "complex": cplx, "steps": mode, "sigma": sigma if not isinstance(sigma, np.ndarray) else "array"}}
